@@ -465,6 +465,34 @@ def alloc_symmetry_cxx(ctx, crate, cx):
         ctx.ob(R, "resolvo::Vector::with_capacity", "capacity-is-exact", ok, "cpp/include/resolvo_vector.h",
                "the requested capacity is stored and allocated unmodified, size starts at 0 (header init: %s; parameter reassigned: %s)" %
                (hdr_cap, reassigned or "no"))
+    # copy-on-write protocol of the mutable accessors: a non-const method handing out `T*` / `T&` into the buffer makes the
+    # buffer unique first (calls detach, or goes through another mutable accessor that does)
+    n_acc = 0
+    mutable_ok = {}
+    meths = [m for m in cxx.walk(rec, lambda n: n.get("kind") == "CXXMethodDecl") if [x for x in m.get("inner", []) if x.get("kind") == "CompoundStmt"]]
+    for _round in range(3):
+        for m in meths:
+            qt = m.get("type", {}).get("qualType", "")
+            ret = qt.split("(")[0].strip()
+            is_const_method = qt.rstrip().endswith("const") or ") const" in qt
+            import re as _re
+            if is_const_method or not _re.match(r"^T\s*[\*&]$", ret):
+                continue
+            names = []
+            for x in cxx.walk(m, lambda n: n.get("kind") in ("MemberExpr", "UnresolvedMemberExpr", "CXXDependentScopeMemberExpr", "DeclRefExpr", "UnresolvedLookupExpr")):
+                names.append(x.get("member") or x.get("name") or (x.get("referencedDecl") or {}).get("name"))
+            calls_detach = "detach" in names
+            via = [k for k, v in mutable_ok.items() if v and k in names and k != m.get("name")]
+            # a call of an overloaded member (begin / end) is an UnresolvedMemberExpr without a name in clang's JSON; in a
+            # non-const method it binds to the non-const overload, which is fine once begin and end themselves detach
+            if not via and cxx.walk(m, lambda n: n.get("kind") == "UnresolvedMemberExpr") and mutable_ok.get("begin") and mutable_ok.get("end"):
+                via = ["<overloaded accessor>"]
+            mutable_ok[m.get("name")] = calls_detach or bool(via)
+    for name, ok in sorted(mutable_ok.items()):
+        n_acc += 1
+        ctx.ob(R, "resolvo::Vector::%s" % name, "mutable-accessor-detaches", ok, "cpp/include/resolvo_vector.h",
+               "the non-const accessor makes the shared buffer unique before handing out a mutable pointer / reference")
+    ctx.floor(R, "mutable accessors of Vector", n_acc, 2)
     # copy-on-write protocol of push_back: detach(size + 1) before the placement new at end()
     n_pb = 0
     for m in cxx.walk(rec, lambda n: n.get("kind") == "CXXMethodDecl" and n.get("name") == "push_back"):
@@ -587,8 +615,39 @@ def _means_positive_refcount(pol, e):
     return (op, b) in (("<=", "0"), ("<", "1"))
 
 
+def relocation_guard(ctx, crate, crs):
+    """Vector::from_iter grows by moving the elements bitwise into a new buffer while the old buffer is owned by an
+    IntoIterInner::UnShared(old, begin) guard whose Drop destroys the elements from `begin` on.  Whoever moves elements out of the
+    old buffer must advance that `begin` (or the guard must be forgotten): otherwise every relocated element with a destructor is
+    dropped twice."""
+    R = "alloc-symmetry"
+    n = 0
+    for b in crate.bodies:
+        if not b.key.endswith("::from_iter") or "vector::Vector" not in b.key:
+            continue
+        guards = [s2 for i, j, s2 in b.assigns() if s2["r"]["k"] == "agg" and s2["r"].get("variant") == "UnShared"]
+        if not guards:
+            continue
+        n += 1
+        moves = [(i, t) for i, t in b.calls() if t.get("f") and t["f"]["name"] in ("read", "copy_nonoverlapping", "copy", "read_unaligned")]
+        marks = 0
+        for i, j, s2 in b.assigns():
+            pl = s2["p"]
+            d = b.origin({"k": "copy", "p": pl}) if pl.get("p") else None
+            if d is None:
+                continue
+            pr = d.get("proj", [])
+            if any(isinstance(e, dict) and e.get("as") == "UnShared" for e in pr) and any(isinstance(e, dict) and e.get("f") == 1 for e in pr):
+                marks += 1
+        forgets = [i for i, t in b.calls() if t.get("f") and t["f"]["name"] in ("forget", "into_raw")]
+        ctx.ob(R, b.key, "relocated-elements-are-marked-moved", (not moves) or marks >= 1 or bool(forgets), b.loc(),
+               "elements moved out of the old buffer are accounted for in the guard that frees it (moves: %d, writes to the guard's begin: %d)" % (len(moves), marks))
+    ctx.floor(R, "growth path of Vector::from_iter", n, 1)
+
+
 def alloc_symmetry_rust(ctx, crate, crs):
     R = "alloc-symmetry"
+    relocation_guard(ctx, crate, crs)
     n_de = 0
     for b in crate.bodies:
         for i, t in b.calls():
@@ -707,6 +766,15 @@ def provider_mapping(ctx, crate, crs):
                 names = _source_fields(rs, t["args"][1], crate)
                 ok = fld in names and not (({"requirements", "constraints", "soft_requirements"} - {fld}) & names)
             ctx.ob(R, rs.key, "problem.%s" % fld, ok, rs.loc(), "Problem::%s is fed from the C problem's field of the same name" % callee)
+            for i, t in cs_:
+                aty = (t.get("arg_tys") or ["", ""])[1]
+                lvn = {x[5:] for x in q.leaves(rs, t["args"][1]) if x.startswith("call:")}
+                reorder = sorted(lvn & {"sort", "sort_by", "sort_by_key", "sort_unstable", "sort_unstable_by_key", "rev", "dedup", "dedup_by_key", "retain",
+                                        "skip", "take", "step_by", "filter", "unique", "sorted", "truncate"})
+                bad_ty = any(x in aty for x in ("BTreeSet", "HashSet", "BTreeMap", "HashMap", "IndexSet", "BinaryHeap"))
+                ctx.ob(R, rs.key, "problem.%s:in-caller-order" % fld, not reorder and not bad_ty, where_call(rs, i),
+                       "the entries are handed to the solver in the caller's order, none dropped (argument type %s%s)" %
+                       (aty[:60], ("; uses " + ", ".join(reorder)) if reorder else ""))
         # returns: true on Ok (result written), false on Err
         cs = q.conds(rs, crs)
         res = {}
